@@ -14,8 +14,8 @@
    (a conformant message the reader decodes, without error, to a different value), and the positive theorem carries
    the hypothesis that names the excluded class. *)
 From HV Require Import Base.Prelude Base.Outcome Base.Bytes Spec.Parse Spec.Format Spec.FormatMsg
-  Model.CodecMsg Model.CodecLink Model.CodecSuper
-  Proofs.ReaderSpecBase Proofs.ReaderSpecDataspace Proofs.ReaderSpecLayout Proofs.ReaderSpecLink Proofs.ReaderSpecSuper.
+  Model.CodecMsg Model.CodecType Model.CodecLink Model.CodecAttr Model.CodecSuper
+  Proofs.ReaderSpecBase Proofs.ReaderSpecDataspace Proofs.ReaderSpecLayout Proofs.ReaderSpecLink Proofs.ReaderSpecSuper Proofs.ReaderSpecAttr.
 
 (* ------------------------------------------------------------------ dataspace (versions 1 and 2; scalar, simple, null;
    maximum extents).  The reader is not told the size of lengths: it infers 8- or 4-byte extents from the message length.
@@ -99,3 +99,20 @@ Theorem C06_reader_superblock_v0_offsets_refuted :
   reader_view sb0_witness_4 = Ok (0, 4, 4, 0, 0).
 Proof. exact superblock_v0_offsets_refuted. Qed.
 Print Assumptions C06_reader_superblock_v0_offsets_refuted.
+
+(* ------------------------------------------------------------------ attribute message: REFUTED for version 2.
+   The reader pads name / datatype / dataspace to multiples of 8 in versions 1 AND 2; the specification pads in version 1
+   only.  The witness (attribute "a", 1-byte integer, dataspace [16], 16 data bytes) is accepted by the strict
+   specification decoder; the reader returns without error another datatype, a scalar dataspace and 6 data bytes. *)
+Theorem C06_reader_attribute_v2_padding_refuted :
+  spec_dec_attribute strict 4 false attr_v2_witness =
+    Ok ({| as_version := 2; as_cset := 0; as_name := [97]; as_dtype := DFixed 1 1 0 0 0 false 0 8;
+           as_space := {| dss_version := 2; dss_type := 1; dss_dims := [16]; dss_maxdims := None |};
+           as_data := [7; 7; 2; 0; 0; 0; 0; 0; 0; 0; 1; 2; 3; 4; 5; 6] |}, []) /\
+  dec_attribute false attr_v2_witness =
+    Ok {| atp_name := [97];
+          atp_dt := {| dt_class := 0; dt_version := 0; dt_size := 16908296; dt_cbf := 0; dt_props := [0; 1; 16; 0] |};
+          atp_ds := {| dsp_version := 2; dsp_type := 0; dsp_dims := [1]; dsp_maxdims := None |};
+          atp_data := Some [1; 2; 3; 4; 5; 6] |}.
+Proof. exact attribute_v2_padding_refuted. Qed.
+Print Assumptions C06_reader_attribute_v2_padding_refuted.
